@@ -310,12 +310,13 @@ struct Tl {
     steps: Cell<u32>,
     fault: Cell<Fault>,
     fault_hit: Cell<bool>,
+    app: Cell<bool>,
 }
 
 thread_local! {
     static TL: Tl = const { Tl {
         world: RefCell::new(None), tid: Cell::new(0), busy: Cell::new(false), op: Cell::new(0),
-        idx: Cell::new(0), steps: Cell::new(0), fault: Cell::new(Fault::None), fault_hit: Cell::new(false),
+        idx: Cell::new(0), steps: Cell::new(0), fault: Cell::new(Fault::None), fault_hit: Cell::new(false), app: Cell::new(false),
     } };
 }
 
@@ -386,6 +387,15 @@ pub fn bypass<R>(f: impl FnOnce() -> R) -> R {
     let prev = TL.with(|t| t.busy.replace(true));
     let r = f();
     TL.with(|t| t.busy.set(prev));
+    r
+}
+
+/// Runs `f` as application code: its calls are still traced (with idx = u32::MAX), scheduled and
+/// emulated, but they are not counted as calls of the library operation and never faulted.
+pub fn app_phase<R>(f: impl FnOnce() -> R) -> R {
+    let prev = TL.with(|t| t.app.replace(true));
+    let r = f();
+    TL.with(|t| t.app.set(prev));
     r
 }
 
@@ -549,6 +559,9 @@ fn prologue(describe: impl FnOnce(&World) -> Option<Desc>) -> Outcome {
         }
     };
     let (tid, idx, fault) = TL.with(|t| {
+        if t.app.get() {
+            return (t.tid.get(), u32::MAX, Fault::None);
+        }
         let idx = t.idx.get();
         t.idx.set(idx + 1);
         if desc.class != Class::Data {
